@@ -59,10 +59,16 @@ def fetchNode (st : Store) (n : Nat) (props : List (Nat × PV)) : List (Nat × P
     | .node n' k => if n' == n && !props.any (·.1 == k) then some (k, p.2) else none
     | .edge _ _ => none)
 
-/-- extend_node_properties_from_store: the fetched entries are inserted in scan order — for a key
-    with several entries the LAST one scanned, i.e. the oldest, wins. -/
+/-- the insertion loop of extend_*_properties_from_store over the fetched entries (scan order = newest
+    entry of a key first).  `newest = false` (pinned tree): `props.insert(..)` — for a key with several
+    entries the LAST one scanned, i.e. the oldest, wins.  `newest = true` (after the `fix:`):
+    `props.entry(..).or_insert(..)` — the first one scanned stays. -/
+def extendWith (newest : Bool) (fetched props : List (Nat × PV)) : List (Nat × PV) :=
+  fetched.foldl (fun m kv => if newest && m.any (·.1 == kv.1) then m else upsert kv.1 kv.2 m) props
+
+/-- extend_node_properties_from_store (insertion as the current source does it: regenerated table) -/
 def extendNode (st : Store) (n : Nat) (props : List (Nat × PV)) : List (Nat × PV) :=
-  (st.fetchNode n props).foldl (fun m kv => upsert kv.1 kv.2 m) props
+  extendWith Generated.extendKeepsNewest (st.fetchNode n props) props
 
 def fetchEdge (st : Store) (e : Edge) (props : List (Nat × PV)) : List (Nat × PV) :=
   st.filterMap (fun p =>
@@ -72,7 +78,7 @@ def fetchEdge (st : Store) (e : Edge) (props : List (Nat × PV)) : List (Nat × 
 
 /-- extend_edge_properties_from_store -/
 def extendEdge (st : Store) (e : Edge) (props : List (Nat × PV)) : List (Nat × PV) :=
-  (st.fetchEdge e props).foldl (fun m kv => upsert kv.1 kv.2 m) props
+  extendWith Generated.extendKeepsNewest (st.fetchEdge e props) props
 
 end Store
 
@@ -372,13 +378,17 @@ def replayGraph (committed : List (Nat × List WalRec)) (ckpt : Nat) (m : IdMap)
       let run := mt.freeze tx.1
       pure (m, if run.isEmpty then acc.2 else acc.2 ++ [run])) (m, [])
 
+/-- a segment named by the manifest is looked up by id in the file -/
+def findSeg (store : List Seg) (id : Nat) : Except OpenErr Seg :=
+  match store.find? (·.id == id) with
+  | some g => .ok g
+  | none => .error OpenErr.segment
+
 /-- GraphEngine::open -/
 def Engine.open (d : Disk) : Except OpenErr Engine := do
   let committed ← replayCommitted d.wal none []
   let st := scanRecovery committed
-  let segs ← st.segs.mapM (fun id => match d.segStore.find? (·.id == id) with
-    | some g => .ok g
-    | none => .error OpenErr.segment)
+  let segs ← st.segs.mapM (findSeg d.segStore)
   let maxSeg := segs.foldl (fun m g => max m g.id) 0
   let interner ← replayLabels committed
   let (idmap, runs) ← replayGraph committed st.ckptTxid (IdMap.load d.i2e)
@@ -451,8 +461,10 @@ def resolveExternal (s : Engine) (n : Nat) : Option Nat :=
   | some r => if r.ext == 0 then none else some r.ext
   | none => none
 
-/-- exhaustive vector search: the nodes that have a vector in the index -/
-def vecNodes (s : Engine) : List Nat := s.vecs.map (·.1)
+/-- GraphEngine::search_vector with k ≥ everything: the nodes that have a vector in the index, minus
+    the nodes a published run tombstones (fix b85f233: there is no deletion path into the HNSW index,
+    the hits of tombstoned nodes are dropped after the search) -/
+def vecNodes (s : Engine) : List Nat := (s.vecs.map (·.1)).filter (fun n => !isTombNode s.runs n)
 
 end Engine
 
